@@ -2039,6 +2039,10 @@ func (cpu *CPU) op_mvn() {
 	src := cpu.Bus.nRead(cpu.RK, cpu.StepInfo.Addr+1)
 
 	cpu.RDBR = dst
+	if cpu.M == 1 {
+		// the byte count is the full 16-bit C accumulator (B:A) even when A is 8 bits wide
+		cpu.RA = uint16(cpu.RAh)<<8 | uint16(cpu.RAl)
+	}
 	if cpu.X == 1 {
 		cpu.Bus.nWrite(dst, uint16(cpu.RYl), cpu.Bus.nRead(src, uint16(cpu.RXl)))
 		cpu.RYl++
@@ -2063,6 +2067,10 @@ func (cpu *CPU) op_mvp() {
 	src := cpu.Bus.nRead(cpu.RK, cpu.StepInfo.Addr+1)
 
 	cpu.RDBR = dst
+	if cpu.M == 1 {
+		// the byte count is the full 16-bit C accumulator (B:A) even when A is 8 bits wide
+		cpu.RA = uint16(cpu.RAh)<<8 | uint16(cpu.RAl)
+	}
 	if cpu.X == 1 {
 		cpu.Bus.nWrite(dst, uint16(cpu.RYl), cpu.Bus.nRead(src, uint16(cpu.RXl)))
 		cpu.RYl--
